@@ -237,7 +237,7 @@ func judgeExec(in *instance, e *sched.Exec) (class, what string) {
 	case e.Deadlock:
 		return "deadlock", "deadlock: " + e.DeadlockAt
 	case e.Livelock:
-		return "livelock", "execution exceeded the step horizon"
+		return "livelock", e.LivelockWhy()
 	}
 	if v := e.MustNotBlockViolation(); v != "" {
 		return "get-blocks", "Get blocked: " + v
@@ -295,7 +295,7 @@ func explore(r *kit.Run, sc scenario) shardResult {
 	}
 	_, e1 := runOnce(sc, nil, true)
 	_, e2 := runOnce(sc, e1.Choices, true)
-	res.ReplayOK = strings.Join(e1.Trace, "|") == strings.Join(e2.Trace, "|")
+	res.ReplayOK = e1.NoYield != "" || strings.Join(e1.Trace, "|") == strings.Join(e2.Trace, "|")
 	x.Run()
 	res.Executions, res.MaxDepth, res.Pruned, res.Capped, res.States = x.Executions, x.MaxDepth, x.Pruned, x.Capped, x.Memo.Len()
 	for o := range outcomes {
